@@ -16,7 +16,7 @@ def conditions(tier, seed):
     spec = [('mult_cond', 'check_mult_cond', 'Mult and Cond (symbolic) of every R_FORM / R_PART / R_AONE / R_AOTH', ['mu', 'co'], ['si']),
             ('phrase', 'check_phrase', 'Txt_Phrs (symbolic strings) of both ends of the reflexive linked association', ['p1', 'p2'], []),
             ('rename', 'check_rename', 'rename every attribute', [], ['si']),
-            ('retype', 'check_retype', 'retype every base attribute to each of 7 data types (core, user-defined, enumeration); referential attributes follow', [], ['bi', 'ti']),
+            ('retype', 'check_retype', 'retype every base attribute to each of 10 data types (core, user-defined, enumeration, user types stacked 2 and 3 deep on a core type and on the enumeration); referential attributes follow', [], ['bi', 'ti']),
             ('reorder', 'check_reorder', 'swap the first two attributes in the R103 chain of every class with two attributes', [], ['si']),
             ('identifier', 'check_identifier', 'add every attribute to the second identifier of its class', [], ['si']),
             ('variants', 'check_variants', 'whole model / named component / build_component / derived attributes / 3 row orders of the model text / SQL schema round trip', [], ['which'])]
